@@ -95,8 +95,173 @@ Proof. vm_compute. reflexivity. Qed.
     return "\n".join(out)
 
 
+
+import struct
+
+
+def fbits(x):
+    return struct.unpack("<Q", struct.pack("<d", float(x)))[0]
+
+
+def gen_c08():
+    out = []
+    out.append('''(* C08 - differentiation yields the exact formal derivative, piece by piece. *)
+From Coq Require Import List ZArith Reals Lra Lia.
+From Flocq Require Import Core BinarySingleNaN.
+Require Import PP.FloatModel PP.Expr PP.FloatOps PP.FloatFacts PP.RealOps PP.Shapes PP.PolyFacts PP.Model.PwModel PP.Gen.Kernels.
+Import ListNotations.
+Local Open Scope R_scope.
+
+(* lanes: derivative of [c0..cK] is [c1; 2*c2; ...; K*cK], each product ONE binary64 multiplication by the
+   literal factor (so it is the correctly rounded product); degree 0 gives the constant 0;
+   for a Segment the breakpoint lane is the input itself. *)
+Definition C08_table : list (list expr * list lane) := [''')
+    rows = []
+    for K in range(9):
+        if K == 0:
+            lanes = "[LLit 0]"
+        else:
+            lanes = "[" + "; ".join(["LVar 1"] + ["LMulLit %d %d" % (i + 1, fbits(i + 1)) for i in range(1, K)]) + "]"
+        rows.append("  (k_Poly%d__derivative, %s)" % (K, lanes))
+        rows.append("  (k_Segment_Poly%d__derivative, spec_segment %s)" % (K, lanes))
+    out.append(";\n".join(rows))
+    out.append('''].
+Theorem C08_shapes :
+  List.Forall (fun p => forall env, evals FOps0 env (fst p) = map (lane_sem env) (snd p)) C08_table.
+Proof. apply table_ok_sem. vm_compute. reflexivity. Qed.
+
+(* one binary64 multiplication is the correctly rounded product (at most half an ulp off) when it does not overflow *)
+Theorem C08_lane_rounded : forall (c : F) (b : Z), is_finite c = true -> is_finite (of_bits b) = true ->
+  noover (B2R c * B2R (of_bits b)) ->
+  B2R (fmul c (of_bits b)) = rnd (B2R c * B2R (of_bits b)) /\\ is_finite (fmul c (of_bits b)) = true.
+Proof. intros. now apply mul_correct. Qed.
+
+Ltac list_ring := repeat match goal with
+  | |- _ :: _ = _ :: _ => apply f_equal2; [try (simpl; ring)|]
+  | |- [] = [] => reflexivity end.
+''')
+    for K in range(9):
+        cs = cvars(K)
+        out.append('''Theorem C08_Poly{K}_value : forall {vs} : R, evals ROps {lst} k_Poly{K}__derivative = {rhs}.
+Proof. intros. unfold k_Poly{K}__derivative. reval. norm_lits. cbn [deriv_coeffs deriv_from]. list_ring. Qed.'''.format(
+            K=K, vs=" ".join(cs), lst="[" + "; ".join(cs) + "]",
+            rhs=("[0]" if K == 0 else "deriv_coeffs [" + "; ".join(cs) + "]")))
+    out.append('''
+(* hence the returned polynomial is p' at every x *)
+Theorem C08_is_derivative : forall (cs : list R) (x : R), derivable_pt_lim (polyval cs) x (polyval (deriv_coeffs cs) x).
+Proof. intros. rewrite <- dpoly_deriv_coeffs. apply derivable_polyval. Qed.
+
+(* differentiating a piecewise function is `map` over its segments (model: Run.run_pw_map with the
+   Segment<T>::derivative kernel, tied by correspondence): number of pieces and order are preserved *)
+Theorem C08_map_length : forall (A B : Type) (f : A -> B) (l : list A), length (map f l) = length l.
+Proof. intros. apply map_length. Qed.
+Theorem C08_map_nth : forall (A B : Type) (f : A -> B) (l : list A) (i : nat), nth_error (map f l) i = option_map f (nth_error l i).
+Proof. intros. apply nth_error_map. Qed.
+
+Example C08_example :
+  run_kernel [] [] k_Poly3__derivative [4607182418800017408; 4611686018427387904; 4613937818241073152; 4616189618054758400]%Z
+  = [4611686018427387904; 4618441417868443648; 4622945017495814144]%Z.
+Proof. vm_compute. reflexivity. Qed.
+''')
+    return "\n".join(out)
+
+
+
+def gen_c07():
+    out = []
+    out.append('''(* C07 - polynomial integration yields the antiderivative through the given knot. *)
+From Coq Require Import List ZArith Reals Lra Lia.
+From Flocq Require Import Core BinarySingleNaN.
+Require Import PP.FloatModel PP.Expr PP.FloatOps PP.FloatFacts PP.RealOps PP.Shapes PP.ErrorBound PP.PolyFacts PP.Model.PwModel
+  PP.Proofs.KernelBounds PP.Gen.Kernels PP.Props.C01.
+Import ListNotations.
+Local Open Scope R_scope.
+
+(* indefinite(): lanes [0; c0; c1/2; ...; cK/(K+1)], each quotient ONE binary64 division by the literal
+   (correctly rounded), the constant term the literal 0 and lane 1 the input c0 itself.
+   integral(knot): the same lanes except the constant term. *)
+Definition C07_table : list (list expr * list lane) := [''')
+    rows = []
+    for K in range(8):
+        lanes = ["LLit 0", "LVar 0"] + ["LDivLit %d %d" % (i, fbits(i + 1)) for i in range(1, K + 1)]
+        rows.append("  (k_Poly%d__indefinite, [%s])" % (K, "; ".join(lanes)))
+        rows.append("  (k_Segment_Poly%d__indefinite, spec_segment [%s])" % (K, "; ".join(lanes)))
+        rows.append("  (tl k_Poly%d__integral, [%s])" % (K, "; ".join(lanes[1:])))
+        seglanes = ["LVar 1"] + ["LDivLit %d %d" % (i + 1, fbits(i + 1)) for i in range(1, K + 1)]
+        rows.append("  (tl (tl k_Segment_Poly%d__integral), [%s])" % (K, "; ".join(seglanes)))
+        rows.append("  ([hd (Lit 0) k_Segment_Poly%d__integral], [LVar 0])" % K)
+    out.append(";\n".join(rows))
+    out.append('''].
+Theorem C07_shapes :
+  List.Forall (fun p => forall env, evals FOps0 env (fst p) = map (lane_sem env) (snd p)) C07_table.
+Proof. apply table_ok_sem. vm_compute. reflexivity. Qed.
+
+(* one binary64 division by a literal is the correctly rounded quotient *)
+Theorem C07_lane_rounded : forall (c : F) (b : Z), is_finite c = true -> B2R (of_bits b) <> 0 ->
+  noover (B2R c / B2R (of_bits b)) ->
+  B2R (fdiv c (of_bits b)) = rnd (B2R c / B2R (of_bits b)) /\\ is_finite (fdiv c (of_bits b)) = true.
+Proof. intros. now apply div_correct. Qed.
+
+Ltac list_field := repeat match goal with
+  | |- _ :: _ = _ :: _ => apply f_equal2; [try (simpl; field; lra)|]
+  | |- [] = [] => reflexivity end.
+''')
+    for K in range(8):
+        cs = cvars(K)
+        vs = " ".join(cs)
+        lst = "[" + "; ".join(cs) + "]"
+        env = "[" + "; ".join(cs + ["kx", "ky"]) + "]"
+        fenv = "[" + "; ".join(cs + ["kx", "ky"]) + "]"
+        # composite: evaluate(integral(p, knot), knot.x)
+        sub = "(k_Poly%d__integral ++ [Var %d])" % (K, K + 1)
+        out.append('''Theorem C07_Poly{K}_indefinite : forall {vs} : R, evals ROps {lst} k_Poly{K}__indefinite = antider {lst}.
+Proof. intros. unfold k_Poly{K}__indefinite. reval. norm_lits. unfold antider. cbn [antider_from]. list_field. Qed.
+(* integral(knot) is the antiderivative shifted vertically: F(t) = A(t) + (knot.y - A(knot.x)) for every t *)
+Theorem C07_Poly{K}_integral : forall {vs} kx ky t : R,
+  polyval (evals ROps {env} k_Poly{K}__integral) t = polyval (antider {lst}) t + (ky - polyval (antider {lst}) kx).
+Proof. intros. unfold k_Poly{K}__integral. reval. norm_lits. unfold antider. cbn [antider_from polyval]. simpl INR. field. Qed.
+Theorem C07_Poly{K}_knot : forall {vs} kx ky : R, polyval (evals ROps {env} k_Poly{K}__integral) kx = ky.
+Proof. intros. rewrite C07_Poly{K}_integral. ring. Qed.
+(* the value of the returned polynomial at knot.x, computed in binary64 by Poly{K1}::evaluate, is knot.y within rounding *)
+Definition e_knot{K} : expr := subst {sub} e_Poly{K1}.
+Theorem C07_Poly{K}_knot_float : forall {vs} kx ky : F, safe {fenv} e_knot{K} ->
+  Rabs (B2R (fev {fenv} e_knot{K}) - B2R ky) <= 2 * INR (depth e_knot{K}) * u * absval (map B2R {fenv}) e_knot{K}.
+Proof.
+  intros {vs} kx ky Hs.
+  assert (Hv : rval {fenv} e_knot{K} = B2R ky).
+  {{ unfold rval, e_knot{K}. rewrite eval_subst by (vm_compute; reflexivity). cbn [map app].
+    change (map (eval ROps [{benv}]) (k_Poly{K}__integral ++ [Var {kxi}]))
+      with (evals ROps [{benv}] k_Poly{K}__integral ++ [B2R kx]).
+    unfold k_Poly{K}__integral. reval. norm_lits.
+    cbn [app]. rewrite C01_Poly{K1}_value. cbn [polyval]. simpl INR. field. }}
+  rewrite <- Hv. apply eval_apriori_lin; [vm_compute; reflexivity|exact Hs|].
+  assert (Hd : INR (depth e_knot{K}) <= 100) by (vm_compute depth; simpl INR; lra).
+  assert (Hu := u_pos). rewrite u_val in *. assert (0 <= INR (depth e_knot{K})) by apply pos_INR. nra.
+Qed.
+'''.format(K=K, K1=K + 1, vs=vs, lst=lst, env=env, fenv=fenv, sub=sub, kxi=K + 1,
+              benv="; ".join("B2R " + c for c in cs + ["kx", "ky"])))
+    out.append('''
+(* consequently: derivative and differences of the result *)
+Theorem C07_antiderivative : forall (cs : list R) (k x : R),
+  derivable_pt_lim (fun t => polyval (antider cs) t + k) x (polyval cs x).
+Proof.
+  intros. replace (polyval cs x) with (polyval cs x + 0) by ring.
+  apply derivable_pt_lim_plus; [|apply derivable_pt_lim_const].
+  assert (H := derivable_polyval (antider cs) x). rewrite dpoly_deriv_coeffs, deriv_antider in H. exact H.
+Qed.
+Theorem C07_roundtrip_exact : forall cs : list R, deriv_coeffs (antider cs) = cs.
+Proof. exact deriv_antider. Qed.
+
+Example C07_example :
+  run_kernel [] [] k_Poly2__integral [4607182418800017408; 4611686018427387904; 4613937818241073152; 4607182418800017408; 4621819117588971520]%Z
+  = [4619567317775286272; 4607182418800017408; 4607182418800017408; 4607182418800017408]%Z.
+Proof. vm_compute. reflexivity. Qed.
+''')
+    return "\n".join(out)
+
+
 if __name__ == "__main__":
     which = sys.argv[1]
-    text = {"C01": gen_c01}[which]()
+    text = {"C01": gen_c01, "C08": gen_c08, "C07": gen_c07}[which]()
     open("/verif/coq/props/%s.v" % which, "w").write(text)
     print("wrote", which, len(text))
